@@ -620,7 +620,12 @@ class Env:
         if len(args) != len(s.args):
             raise Unsupported(f"spec {s.name}: arity")
         if not has_sym(args) and not any(isinstance(a, (SV,)) for a in args):
-            return it.native(s.fn, *args)
+            try:
+                return s.fn(*args)
+            except RecursionError:
+                raise
+            except Exception:
+                pass  # partial spec function outside its domain: keep it symbolic (unspecified value)
         decl = self.spec_decl(s)
         t = decl(*[srt.box(a) for srt, a in zip(s.args, args)])
         return ops.normalize(it, s.ret.unbox(t))
